@@ -39,6 +39,13 @@ def generate(rng, tier, mode="default"):
     if tier == "quick":
         rng.shuffle(out)
         out = [t for t in out if " default" in t[0]] + [t for t in out if " default" not in t[0]][:6000]
+    # elements that share their low-order bytes up to a zero byte (0, 256, 512, 65536, ...): equality must look at
+    # every byte of the element, not stop at the first zero
+    for esz in (2, 3, 8):
+        vals = [7, 256, 0, 9, 512, 65536 % (256 ** esz), 1, 257]
+        for probe in (0, 256, 512, 1, 65536 % (256 ** esz)):
+            out.append(["T ? sized esz=%d cap=4 ef=2/1 mem=conf" % esz] + ["h0 add %d" % v for v in vals]
+                       + ["h0 index_of %d" % probe, "h0 contains %d" % probe, "h0 remove %d" % probe, "h0 index_of %d" % probe, "h0 size", "END"])
     # capacities around SIZE_MAX / element_size: the constructor refuses what the array model (8-byte slots) refuses
     # only when esz = 8, so these traces use esz=8; for the other sizes see big() in the harness notes
     for cap in (2**61 - 1, 2**61, 2**61 + 1, 2**62, 2**63, 2**64 - 3, 2**64 - 1):
